@@ -19,6 +19,21 @@ logger = logging.getLogger(__name__)
 
 def _remove_unused_optional_outputs(
     node: ir.Node, graph_outputs: frozenset[ir.Value], onnx_opset_version: int
+) -> bool:
+    """Remove unused optional outputs. Returns True if the node was changed."""
+    signature_before = (
+        tuple(out.name for out in node.outputs),
+        "training_mode" in node.attributes,
+    )
+    _remove_unused_optional_outputs_impl(node, graph_outputs, onnx_opset_version)
+    return signature_before != (
+        tuple(out.name for out in node.outputs),
+        "training_mode" in node.attributes,
+    )
+
+
+def _remove_unused_optional_outputs_impl(
+    node: ir.Node, graph_outputs: frozenset[ir.Value], onnx_opset_version: int
 ) -> None:
     try:
         if node.domain not in {"", "onnx.ai"}:
@@ -74,15 +89,18 @@ def _remove_unused_optional_outputs(
     node.resize_outputs(new_output_count)
 
 
-def _remove_trailing_empty_inputs(node: ir.Node) -> None:
-    # Remove trailing None inputs
+def _remove_trailing_empty_inputs(node: ir.Node) -> bool:
+    """Remove trailing None inputs. Returns True if the node was changed."""
     new_input_count = len(node.inputs)
     for i in reversed(range(len(node.inputs))):
         if node.inputs[i] is None:
             new_input_count -= 1
         else:
             break
+    if new_input_count == len(node.inputs):
+        return False
     node.resize_inputs(new_input_count)
+    return True
 
 
 def _remove_unused_nodes_in_graph_like(function_or_graph: ir.Function | ir.Graph) -> int:
@@ -99,9 +117,12 @@ def _remove_unused_nodes_in_graph_like(function_or_graph: ir.Function | ir.Graph
             function_or_graph.remove(node, safe=True)
             count += 1
         else:
-            _remove_trailing_empty_inputs(node)
+            # Every rewrite of a kept node counts as a modification
+            if _remove_trailing_empty_inputs(node):
+                count += 1
             if onnx_opset_version is not None:
-                _remove_unused_optional_outputs(node, graph_outputs, onnx_opset_version)
+                if _remove_unused_optional_outputs(node, graph_outputs, onnx_opset_version):
+                    count += 1
             for attr in node.attributes.values():
                 if attr.type == ir.AttributeType.GRAPH:
                     count += _remove_unused_nodes_in_graph_like(attr.as_graph())
